@@ -68,7 +68,11 @@ CHECKS["C13"] = ("other", "variant tables of the four sibling bridge functions e
                  "kind(j) names the same variant as into_value(j) for all six JSON variants, with the number ladder u64 -> Integer, i64 -> NegativativeInteger, f64 -> Float in that order and each payload being the value just obtained; Value::kind is the identity table; both Value -> serde_json::Value maps invert into_value on variant names and move payloads unchanged (integers via Number::from, floats via Number::from_f64); arrays/objects are rebuilt element by element in order; the Deserr impl can only fail by itself on from_f64 == None.".replace("Negativative", "Negative"),
                  TB + "; serde_json::Number semantics (from / as_* are lossless inverses, parsed documents hold finite floats) - document equality follows only under these; -0.0 and precision not decided", "§5 C13")
 
-NOT_YET = {p: 'check not yet built in this revision of /verif (construction order in DESIGN.md §8); will be claimed when its rule set is armed' for p in ['C14', 'C20']}
+CHECKS["C20"] = ("proof", "callee allow-list, branch-source rule and argument/result provenance over the MIR of the extractor bodies (features actix-web and axum enabled; async body before lowering)",
+                 "For all requests: each extractor only calls the framework's own extractor, deserr::deserialize::<T, serde_json::Value, E>, its wrapper constructor and ?/poll plumbing, and only branches on their outcomes; the framework extractor receives the request / query string unchanged, deserialize receives exactly the extracted document, Ok is exactly the wrapped deserr value, every error is the framework's or deserr's own value passed on through `?`/From; JsonError answers 400 with its message as body in both frameworks; the axum rejection wraps and delegates per variant.",
+                 TB + "; the frameworks' own extractors, conversions and IntoResponse impls are trusted (content-type handling, limits not analysed)", "§5 C20")
+
+NOT_YET = {p: 'check not yet built in this revision of /verif (construction order in DESIGN.md §8); will be claimed when its rule set is armed' for p in ['C14']}
 
 
 def main():
